@@ -137,10 +137,20 @@ fn cpu_ticks() -> u64 {
     g(11) + g(12)
 }
 
+/// Scheduling state of the main (simulator) thread: 'S' sleeping (a futex or pipe wait),
+/// 'D' uninterruptible (I/O, page reclaim), 'R' runnable, ...
+fn main_thread_state() -> char {
+    let pid = std::process::id();
+    let st = std::fs::read_to_string(format!("/proc/{pid}/task/{pid}/stat")).unwrap_or_default();
+    st.rsplit_once(')').and_then(|x| x.1.trim_start().chars().next()).unwrap_or('?')
+}
+
 /// Watchdog on a real OS thread (outside the simulation).  `beat` changes with every run.
 /// A run is given up -- the process aborts, the supervisor re-runs that run alone -- when
-/// (a) for `limit` seconds of wall clock the process has used next to no CPU (< 5 %): the
-///     one simulator thread is blocked, e.g. on a real lock held by a descheduled task; or
+/// (a) for `limit` seconds of wall clock the process has used next to no CPU (< 5 %) AND the
+///     simulator thread was seen asleep (state 'S': waiting for a lock, not for the disk or
+///     for memory) in at least nine samples of ten: it is blocked, e.g. on a real lock held
+///     by a descheduled task; or
 /// (b) the run has burnt `5 * limit` seconds of CPU: it spins without ever reaching a
 ///     scheduling point (runs that do reach them are bounded by their step budget).
 /// Wall clock alone is not a criterion: on an overloaded machine a legitimate heavy run
@@ -150,6 +160,7 @@ fn start_watchdog(beat: std::sync::Arc<std::sync::atomic::AtomicU64>, limit: u64
         let mut last = u64::MAX;
         let mut cpu_at_beat = cpu_ticks();
         let mut window: std::collections::VecDeque<(std::time::Instant, u64)> = std::collections::VecDeque::new();
+        let mut states: std::collections::VecDeque<bool> = std::collections::VecDeque::new();
         loop {
             std::thread::sleep(std::time::Duration::from_secs(1));
             let b = beat.load(std::sync::atomic::Ordering::Relaxed);
@@ -159,14 +170,20 @@ fn start_watchdog(beat: std::sync::Arc<std::sync::atomic::AtomicU64>, limit: u64
                 last = b;
                 cpu_at_beat = cpu;
                 window.clear();
+                states.clear();
             }
             window.push_back((now, cpu));
+            states.push_back(main_thread_state() == 'S');
+            while states.len() as u64 > limit {
+                states.pop_front();
+            }
             while window.len() > 2 && now.duration_since(window[1].0).as_secs() >= limit {
                 window.pop_front();
             }
             let (t0, c0) = window[0];
             let wall = now.duration_since(t0).as_secs();
-            if wall >= limit && (cpu - c0) * 20 < wall * 100 {
+            let asleep = states.iter().filter(|x| **x).count();
+            if wall >= limit && (cpu - c0) * 20 < wall * 100 && asleep * 10 >= states.len() * 9 {
                 eprintln!("WATCHDOG: no progress for {wall}s (blocked: {} ms of CPU in that time; marker {b}), aborting", (cpu - c0) * 10);
                 std::process::abort();
             }
